@@ -144,6 +144,19 @@ def align_down_of(t, lanes):
     return None
 
 
+def merge_shifts(t):
+    """(X >> a) >> (s - a) is X >> s when s = max(.., a) (so s >= a and the subtraction cannot wrap)"""
+    t = strip_casts(t)
+    if t[0] == 'bin' and t[1] == 'Shr':
+        inner, amt = strip_casts(t[2]), strip_casts(norm(t[3]))
+        if inner[0] == 'bin' and inner[1] == 'Shr' and amt[0] == 'bin' and amt[1] == 'Sub':
+            a = strip_casts(norm(inner[3]))
+            s, a2 = strip_casts(amt[2]), strip_casts(norm(amt[3]))
+            if a == a2 and s[0] == 'max' and a in (strip_casts(norm(s[1])), strip_casts(norm(s[2]))):
+                return ('bin', 'Shr', inner[2], s)
+    return t
+
+
 def reaching_def(b, tb, var, at_block):
     """the definitions of a multi-definition local that reach the start of at_block: [(block, term)]"""
     ds = tb.defs_of_var(var)
@@ -255,6 +268,7 @@ def run(ctx):
     if not lane_ok:
         return
     cnt, target, page = cnts[0], targets[0], bases[0]
+    target = merge_shifts(target)
     off0 = offs[0]
     ivars = [a for a in off0[0] if a[0] == 'var']
     grp_ok = len(off0[0]) == 1 and len(ivars) == 1 and off0[0][ivars[0]] == 8 and off0[1] == 0
@@ -289,7 +303,7 @@ def run(ctx):
     zs = []
     for bi in sorted(nb):
         st = switch_test(vb, tb, bi)
-        if st and strip_casts(norm(st[0])) == target:
+        if st and merge_shifts(strip_casts(norm(st[0]))) == target:
             zs.append((bi,) + st)
     vec_blocks = set(bi for bi, t in vb.calls() if bi in nb and any(ARCH_RX.search(n) for n in core.call_names(t)))
     sb = None
@@ -304,9 +318,11 @@ def run(ctx):
         calls = [(bi, t) for bi, t in vb.calls() if bi in zr and any(n in F.bodies for n in core.call_names(t))]
         ds = [d for d in tb.defs_of_var(0) if d[0] in zr] if ('var', 0) == tb.local(0) else []
         if len(calls) >= 1 and ds:
-            c = strip_casts(ds[0][1])
-            if c[0] == 'call' and c[1] in F.bodies and tuple(c[2]) == tuple(('arg', i + 1) for i in range(vb.argc)):
-                sb = F.bodies[c[1]]
+            for cbi, ct in calls:
+                names = [n for n in core.call_names(ct) if n in F.bodies]
+                if (names and cbi == ds[0][0] and ct.get('d') == [0] and len(ct['a']) == vb.argc
+                        and all(strip_casts(tb.operand(a)) == ('arg', i + 1) for i, a in enumerate(ct['a']))):
+                    sb = F.bodies[names[0]]
         if sb is None:
             zok = False
             zdetail = 'zero edge does not return scalar(self, key, start, page) unchanged: %s' % [show(d[1])[:100] for d in ds]
